@@ -278,8 +278,12 @@ class DsaComputation(VariableComputation):
         if not self.neighbors:
             # If a variable has no neighbors, we must select its final value immediately
             # as it will never receive any message.
-            value, cost = optimal_cost_value(self._variable, self.mode)
-            self.value_selection(value, cost)
+            # It may still have unary constraints, which must be taken into
+            # account together with its own cost function.
+            values, cost = find_optimal(
+                self._variable, {}, self.constraints, self.mode
+            )
+            self.value_selection(random.choice(values), cost)
             if self.logger.isEnabledFor(logging.INFO):
                 self.logger.info(
                     f"Select initial value {self.current_value} "
